@@ -19,6 +19,16 @@ CHECKS = {
         note="Trusted: Lean kernel + 3 axioms; blake2b injective with hex output; CPython's type()/str() texts injective per type and "
              "containing no '(' in the type text (validated on generated values); class names identify classes; model tied by correspondence.",
         design="5/C01"),
+    "C02": dict(
+        technique="Lean 4 proof: model of _eq_fn (class, content_id, root origin, strict zip of dfs streams) decides ContentEq ∧ originsAgree; equivalence laws; + differential correspondence on pairs/triples with origins differing at one position",
+        text="Theorems (all well-formed trees conforming to a class table, injective digest): eqImpl never raises (the strict zip sees "
+             "streams of equal length whenever content ids agree), eqImpl = true iff content-equal and origins agree at every position, "
+             "reflexive/symmetric/transitive, != is the negation, other class => False. hash constancy is the C10 frame. Correspondence: "
+             "a==b, b==a, a!=b, non-node comparisons and hash on generated pairs (origin changed at exactly one position at depth 0..4+, "
+             "content mutants, twins) and triples, vs the model and vs the statement evaluated on the specs.",
+        note="Trusted: Lean kernel + 3 axioms; blake2b injective (with a collision between trees of different size the real == would "
+             "raise ValueError from zip(strict=True)); origin equality = dataclass equality; model tied by correspondence.",
+        design="5/C02"),
     "C05": dict(
         technique="Lean 4 proof: implementation-shaped stack/deque/queue loops = recursive pre/post/level-order spec (induction on fuel/weight) + differential correspondence model vs real dfs/bfs/gather",
         text="Theorems (for every tree, every prune/filter, no size bound): dfsImpl = pre-order spec, bottom-up = post-order spec, "
